@@ -9,6 +9,7 @@ import (
 	"runtime"
 	"sort"
 	"sync"
+	"sync/atomic"
 	"time"
 
 	"github.com/named-data/ndnd/fw/core"
@@ -120,12 +121,23 @@ type hface struct {
 	rdErr    error
 	reads    int
 	partRead int // reads that ended inside a block
+
+	// stalled-reader scenario: after stallAfter bytes the reader stops reading for stallFor, once
+	stallAfter int
+	stallFor   time.Duration
+	stallState atomic.Int32 // 0 not yet, 1 stalling, 2 over
+	stallBegan time.Time    // written before stallState becomes 1
+	rbuf       int          // size of the read buffer (0: 64 kB)
+	rx         atomic.Int64 // bytes read so far
 }
 
 func (h *hface) reader(q *evq) {
 	defer close(h.done)
 	if h.stream {
 		buf := make([]byte, 1<<16)
+		if h.rbuf > 0 {
+			buf = make([]byte, h.rbuf)
+		}
 		var acc []byte
 		for {
 			n, err := h.sconn.Read(buf)
@@ -139,6 +151,12 @@ func (h *hface) reader(q *evq) {
 				acc = append([]byte{}, rest...)
 				if len(acc) > 0 {
 					h.partRead++
+				}
+				if h.stallFor > 0 && h.stallState.Load() == 0 && h.rx.Add(int64(n)) >= int64(h.stallAfter) {
+					h.stallBegan = time.Now()
+					h.stallState.Store(1)
+					time.Sleep(h.stallFor)
+					h.stallState.Store(2)
 				}
 				if bad != "" {
 					q.push(event{face: h.idx, bad: bad})
@@ -353,11 +371,18 @@ func (h *hface) framesFor(pkt []byte, tok []byte, bare bool, st *stats) [][]byte
 	return fragmentFrames(pkt, tok, h.mtu, h.spec.Slack, &h.seq)
 }
 
-func runOnce(c Case, noProgress time.Duration) (rr runResult) {
-	rr.detail = map[string]string{}
-	rr.st.kinds = map[string]bool{}
-	st := &rr.st
+// env is a running forwarder with its faces; the harness owns the other end of every socket.
+type env struct {
+	threads     []*fw.Thread
+	faces       []*hface
+	q           *evq
+	dir         string
+	quitThreads func()
+}
 
+// bringUp builds the forwarder of case c (threads, faces over real sockets, strategy, routes). prep, if
+// not nil, sees every harness-side face after its sockets exist and before its reader starts.
+func bringUp(c Case, prep func(h *hface)) (*env, error) {
 	// ---- forwarder
 	nth := c.Threads
 	if nth < 1 {
@@ -402,14 +427,12 @@ func runOnce(c Case, noProgress time.Duration) (rr runResult) {
 	dir, err := os.MkdirTemp("", "np")
 	if err != nil {
 		quitThreads()
-		rr.setup = err
-		return
+		return nil, err
 	}
-	defer os.RemoveAll(dir)
 	q := &evq{sig: make(chan struct{}, 1)}
 	var faces []*hface
 	var closers []func()
-	fail := func(err error) runResult {
+	fail := func(err error) (*env, error) {
 		for _, f := range closers {
 			f()
 		}
@@ -420,8 +443,8 @@ func runOnce(c Case, noProgress time.Duration) (rr runResult) {
 		}
 		waitFor(5*time.Second, func() bool { return face.VerifFaceTableLen() == 0 })
 		quitThreads()
-		rr.setup = err
-		return rr
+		os.RemoveAll(dir)
+		return nil, err
 	}
 	for i, fs := range c.Faces {
 		h := &hface{idx: i, spec: fs, mtu: maxPacket, parts: map[uint64]*partial{}, done: make(chan struct{})}
@@ -507,6 +530,9 @@ func runOnce(c Case, noProgress time.Duration) (rr runResult) {
 		default:
 			return fail(fmt.Errorf("face kind %q", fs.Kind))
 		}
+		if prep != nil {
+			prep(h)
+		}
 		h.ls.Run(nil)
 		h.id = h.ls.FaceID()
 		go h.reader(q)
@@ -517,6 +543,22 @@ func runOnce(c Case, noProgress time.Duration) (rr runResult) {
 	for _, r := range c.Routes {
 		table.FibStrategyTable.InsertNextHopEnc(mkName(r.Prefix), faces[r.Face].id, r.Cost)
 	}
+
+	return &env{threads: threads, faces: faces, q: q, dir: dir, quitThreads: quitThreads}, nil
+}
+
+func runOnce(c Case, noProgress time.Duration) (rr runResult) {
+	rr.detail = map[string]string{}
+	rr.st.kinds = map[string]bool{}
+	st := &rr.st
+
+	e, err := bringUp(c, nil)
+	if err != nil {
+		rr.setup = err
+		return
+	}
+	defer os.RemoveAll(e.dir)
+	threads, faces, q, quitThreads := e.threads, e.faces, e.q, e.quitThreads
 
 	// ---- the applications
 	exs := make([]*exState, len(c.Ex))
